@@ -169,11 +169,20 @@ def check_actual(tn, val, proc, a_status, a_val):
         return None
     if k in D.RE_DT:
         if a_status != 'Init' or not a_val.startswith('t:'): return 'date/time actual value missing: %s:%s' % (a_status, a_val)
-        if k not in ('dateTime', 'date', 'time') or v.tz not in (None, 0) or v.h == 24: return None
+        if k not in ('dateTime', 'date', 'time') or (v.h == 24 and not v.tz): return None
         f = a_val[2:].split(',')
         got = [int(x) for x in f[:6]] + [float(f[6])]
         sec = v.s if v.s is not None else Decimal(0)
         want = [v.y or 0, v.mo or 0, v.d or 0, v.h or 0, v.mi or 0, int(sec)]
+        if v.tz:
+            # a zoned value is delivered normalised to UTC (the same normalisation the order relation and the canonical form use)
+            if v.y is not None and (v.y < 2 or D._near_era_boundary(v)): return None
+            mins = (v.h or 0) * 60 + (v.mi or 0) - v.tz
+            if k == 'time': want[3], want[4] = (mins % 1440) // 60, mins % 60
+            else:
+                yy, mm, dd = D.civil_from_days(D.days_from_civil(v.y, v.mo, v.d) + mins // 1440)
+                want[0], want[1], want[2] = yy, mm, dd
+                if k == 'dateTime': want[3], want[4] = (mins % 1440) // 60, mins % 60
         if got[:6] != want: return 'date/time fields %r != %r' % (got[:6], want)
         fr = float(sec - int(sec))
         if abs(got[6] - fr) > 1e-9: return 'fraction %r != %r' % (got[6], fr)
@@ -484,6 +493,11 @@ def order_case(draw, ntriples):
     tn = draw(st.sampled_from(ORDER_TYPES))
     triples = []
     for _ in range(draw(st.integers(1, ntriples))):
+        if tn in D.RE_DT and draw(st.booleans()):
+            # three values around one day/month/year boundary, zones of both signs and none: normalisation carries, +-14 h window edges
+            g = draw(D.carry_group(tn, 3).filter(lambda g: all(D.verdict(tn, l)[0] is True for l in g)))
+            if draw(st.booleans()): g[1] = draw(D.variant(tn, g[0]))
+            triples.append(g); continue
         a = draw(valid_literal(tn))
         b = draw(D.variant(tn, a)) if draw(st.booleans()) else draw(valid_literal(tn))
         k = draw(st.integers(0, 3))
@@ -491,8 +505,8 @@ def order_case(draw, ntriples):
         triples.append([a, b, c])
     return {'lane': 'order', 'type': tn, 'triples': triples}
 
-FACET_BASES = ['decimal', 'integer', 'int', 'short', 'unsignedByte', 'positiveInteger', 'long', 'float', 'double', 'dateTime', 'date', 'time', 'hexBinary', 'base64Binary',
-               'string', 'normalizedString', 'token', 'boolean', 'gYear', 'gYearMonth', 'duration', 'NCName', 'language']
+FACET_BASES = ['decimal', 'integer', 'int', 'short', 'unsignedByte', 'positiveInteger', 'long', 'float', 'double', 'dateTime', 'dateTime', 'date', 'time', 'hexBinary', 'base64Binary',
+               'string', 'normalizedString', 'token', 'boolean', 'gYear', 'gYearMonth', 'gMonthDay', 'gDay', 'gMonth', 'duration', 'NCName', 'language']
 # patterns avoid '.', whose treatment of U+2028/U+0085 belongs to the regular-expression property (C11)
 PATTERNS = {'decimal': ['[0-9]+', '-?[0-9]+\\.[0-9][0-9]', '\\d{1,3}', '[+-]?[0-9.]*'], 'string': ['[a-c]*', '[a-zA-Z0-9 ]*', '[^#]{0,3}', '[^ ]*'],
             'hexBinary': ['[0-9A-F]*', '([0-9a-f][0-9a-f]){2}'], 'boolean': ['true|false', '[01]'], 'dateTime': ['[^#]*Z', '[^Z]*', '2[^#]*'], 'float': ['[0-9]+', '[^eE]*', '[^#]*E[^#]*']}
@@ -506,7 +520,10 @@ def _nudge_decimal(lit, delta_units):
 @st.composite
 def derived_case(draw, nlits):
     bt = draw(st.sampled_from(FACET_BASES)); kind = D.PRIM[bt]
-    p = draw(valid_literal(bt)); q = draw(valid_literal(bt)); pv = draw(D.variant(bt, p))
+    p = draw(valid_literal(bt)); q = draw(valid_literal(bt))
+    if bt in D.RE_DT and draw(st.booleans()):
+        p, q = draw(D.carry_group(bt, 2).filter(lambda g: all(D.verdict(bt, l)[0] is True for l in g)))      # facet bound and instance around one boundary
+    pv = draw(D.variant(bt, p))
     pool = [(p, ['bd:facet-pivot']), (pv, ['bd:facet-pivot-variant']), (q, ['plain'])]
     val = D.verdict(bt, p)[1]
     facets = {}; enums = []
@@ -639,7 +656,46 @@ def enum_batches():
             if b is not None: lits += [str(b - 1), str(b), str(b + 1), ' %d ' % b, ('-0' if b < 0 else '0') + str(abs(b))]
         out.append({'lane': 'builtin', 'type': tn, 'lits': lits + ['0', '1', '-1'], 'parse': True, 'scanner': 'IG'})
     for c in out: c['labels'] = [['bd:enumerated-boundary'] for _ in c['lits']]
+    out += carry_batches()
     return out
+
+def carry_batches():
+    """time-zone normalisation carries/borrows across day, month (incl. leap February) and year boundaries, both zone signs up to 14:00:
+    canonical form + XSValue actual value (builtin), order against the UTC form and the unzoned local form (order), enumeration /
+    minInclusive / maxInclusive written in UTC against the zoned instance in a parse (derived)"""
+    out = []
+    bounds = [(2002, 1, 1), (2000, 1, 1), (10000, 1, 1), (2000, 3, 1), (2001, 3, 1), (2001, 7, 1), (2001, 6, 15)]
+    deltas = [-840, -300, -90, -1, 0, 30, 300, 839]
+    zones = [-840, -300, -1, 1, 330, 840]
+    for t in ('dateTime', 'date', 'time', 'gYearMonth', 'gYear', 'gMonthDay', 'gDay', 'gMonth'):
+        dl = deltas if t in ('dateTime', 'time') else [-1440, 0, 1440]
+        lits = sorted(set(D.carry_literal(t, b, d, z) for b in (bounds if t != 'time' else bounds[:1]) for d in dl for z in zones + [None, 0]))
+        lits = [l for l in lits if D.verdict(t, l)[0] is True]
+        for i in range(0, len(lits), 60):
+            out.append({'lane': 'builtin', 'type': t, 'lits': lits[i:i + 60], 'parse': i == 0, 'scanner': 'IG', 'labels': [['bd:zone-carry', 'bd:enumerated-boundary']] * len(lits[i:i + 60])})
+    triples = []; dcases = []
+    for b in bounds:
+        for d in deltas:
+            for z in zones:
+                lit = D.carry_literal('dateTime', b, d, z)
+                v = D.parse_datetime('dateTime', lit)
+                utc = D.canon_datetime(v)
+                local = lit[:19]
+                triples.append([lit, utc, local])
+                if len(dcases) < 120 and (d, z) in ((-90, -300), (-1, -1), (0, 1), (30, 330), (-840, -840), (839, 840), (300, 840), (-300, -840)):
+                    for facets, enums in (({}, [utc]), ({'minInclusive': utc, 'maxInclusive': utc}, []), ({'minExclusive': utc}, []), ({'maxExclusive': utc}, [])):
+                        dcases.append({'lane': 'derived', 'types': [{'k': 'R', 'name': 'T1', 'base': 'dateTime', 'facets': facets, 'enums': enums}], 'target': 'T1', 'builtins': ['dateTime'],
+                                       'lits': [lit, utc, local], 'labels': [['bd:zone-carry', 'bd:facet-pivot-variant']] * 3, 'parse': True, 'scanner': 'IG' if len(dcases) % 2 else 'SG'})
+    for i in range(0, len(triples), 40):
+        out.append({'lane': 'order', 'type': 'dateTime', 'triples': triples[i:i + 40], 'labels': ['bd:zone-carry']})
+    for t in ('date', 'gYearMonth', 'gYear', 'gMonthDay', 'gDay', 'gMonth', 'time'):
+        tr = []
+        for b in bounds[:5]:
+            for z1, z2 in ((840, -840), (-300, 330), (1, None), (-840, None), (840, None), (0, 300)):
+                tr.append([D.carry_literal(t, b, 0, z1), D.carry_literal(t, b, -1440 if t != 'time' else -300, z2), D.carry_literal(t, b, 1440 if t != 'time' else 300, z1)])
+        tr = [x for x in tr if all(D.verdict(t, l)[0] is True for l in x)]
+        out.append({'lane': 'order', 'type': t, 'triples': tr, 'labels': ['bd:zone-carry']})
+    return out + dcases
 
 def worker(ctx):
     ex = ctx.executor('xv_dtype')
@@ -648,7 +704,7 @@ def worker(ctx):
             note = Note()
             ok, detail = check_case(case, ex, note)
             flush(note, ctx.stats)
-            ctx.stats.extra['exhaustive'] = ctx.stats.extra.get('exhaustive', 0) + len(case['lits'])
+            ctx.stats.extra['exhaustive'] = ctx.stats.extra.get('exhaustive', 0) + len(case.get('lits') or case.get('triples'))
             if not ok: ctx.stats.failures.append({'case': case, 'detail': detail})
     def prop(case):
         note = Note()
